@@ -158,6 +158,7 @@ AGENT_CHECKS = {
     "C25": {
         "pkg": "p25",
         "runs": [_r("TestC25", 20000, 2000000)],
+        "fuzz": [{"target": "FuzzC25", "seconds": 600}],
         "rule": "1-4 declared parameters over bool/string/int/uint/double/duration/timestamp/ipaddress/any/list<T>/map<T>; a type-correct CEL expression "
                 "from a typed grammar (comparisons, && || ! ?: with error absorption, in on lists/maps, map lookup/select/has, list index, checked int/uint "
                 "arithmetic, double arithmetic, string functions, timestamp/duration arithmetic, ipaddress.in_cidr, dyn operands); request and stored "
